@@ -154,3 +154,26 @@ package channeldb
 //@   props C02 C08
 //@   site call PutUint16: assert arg(1) == key && arg(2) == i && len(key) == 2
 //@   ensures len(result) == 2
+//@
+//@ // ---- C08/C02: a forwarding package is written under (source, height) with adds, settle/fails and both filters each
+//@ // ---- under its own key
+//@ func (*ChannelPackager) AddFwdPkg
+//@   props C08 C02
+//@   loop * havoc
+//@   site call ToUint64: assert arg(0) == fwdPkg.Source
+//@   site call makeLogKey nth 0: assert arg(0) == ret(ToUint64)
+//@   site call makeLogKey nth 1: assert arg(0) == fwdPkg.Height
+//@   site call CreateBucketIfNotExists nth 2: assert arg(1) == addBucketKey && arg(0) == retn(CreateBucketIfNotExists, 0, 1)
+//@   site call CreateBucketIfNotExists nth 3: assert arg(1) == failSettleBucketKey && arg(0) == retn(CreateBucketIfNotExists, 0, 1)
+//@   site call putLogUpdate nth 0: assert arg(0) == retn(CreateBucketIfNotExists, 0, 2) && arg(1) == wrap(i, 16) && arg(2) == addr(fwdPkg.Adds[i])
+//@   site call putLogUpdate nth 1: assert arg(0) == retn(CreateBucketIfNotExists, 0, 3) && arg(1) == wrap(i, 16) && arg(2) == addr(fwdPkg.SettleFails[i])
+//@   site call Encode nth 0: assert arg(0) == fwdPkg.AckFilter
+//@   site call Encode nth 1: assert arg(0) == fwdPkg.SettleFailFilter
+//@   site call Put nth 0: assert arg(0) == retn(CreateBucketIfNotExists, 0, 1) && arg(key) == ackFilterKey && arg(value) == ret(Bytes, 0) && ret(Encode, 0) == nil
+//@   site call Put nth 1: assert arg(0) == retn(CreateBucketIfNotExists, 0, 1) && arg(key) == settleFailFilterKey && arg(value) == ret(Bytes, 1) && ret(Encode, 1) == nil
+//@
+//@ func putLogUpdate
+//@   props C08 C02
+//@   site call uint16Key: assert arg(0) == idx
+//@   site call Put: assert arg(0) == bkt && arg(key) == ret(uint16Key) && arg(value) == ret(Bytes) && ret(serializeLogUpdate) == nil
+//@   site call serializeLogUpdate: assert arg(1) == htlc
